@@ -16,7 +16,9 @@
      and variants with arbitrary time (T3 future, P3 not later than the trusted header),
      supplied set not matching the header (V3), malformed (M3), an invalid signature (S3),
      headers whose own set did not sign enough (N2, N3), a genuine header with a thin commit
-     (R3x: same header hash as R3), and a foreign header G2 for backwards verification.
+     (R3x: same header hash as R3), a foreign header G2 for backwards verification, and headers
+     whose own set lists one validator of a coalition below the trust level in several slots
+     (D3, D4: the commit repeats its signature per slot).
 
    Provider behaviours (tables: height+1 -> sequence of answers to successive requests)
    are the "personas" below.                                                          *)
@@ -29,7 +31,10 @@ SetC  == <<V("v5", 2), V("v6", 2), V("v3", 1), V("v4", 1)>>
 SetX13 == <<V("v1", 2), V("v3", 1)>>
 SetX3 == <<V("v3", 1)>>
 SetX1 == <<V("v1", 2)>>
-VSets == [A |-> SetA, B |-> SetB, C |-> SetC, X13 |-> SetX13, X3 |-> SetX3, X1 |-> SetX1]
+\* a hand-built set listing the SAME validator in several slots (ValidatorSet.ValidateBasic and
+\* LightBlock.ValidateBasic accept it); the commit repeats that validator's one precommit per slot
+SetXD3 == <<V("v3", 1), V("v3", 1), V("v3", 1)>>
+VSets == [A |-> SetA, B |-> SetB, C |-> SetC, X13 |-> SetX13, X3 |-> SetX3, X1 |-> SetX1, XD3 |-> SetXD3]
 
 \* commit in which exactly the validators of `signers` (all with valid signatures except
 \* those in `bad`) committed, the others are absent
@@ -64,6 +69,10 @@ AllBlocks ==
    F4b |-> Blk("F4b", "F4b", 4, 29, "X13", "X13", "X13", {"v1", "v3"}, {}, "R3", TRUE),
    F4e |-> Blk("F4e", "F4e", 4, 30, "X13", "X13", "X13", {"v1", "v3"}, {}, "R3", TRUE),
    F4a |-> Blk("F4a", "F4a", 4, 31, "X13", "X13", "X13", {"v1", "v3"}, {}, "R3", TRUE),
+   \* duplicate-slot family: forged by {v3} alone (1 of 6 of A, below the trust level), its own set
+   \* lists v3 three times and is "fully signed" by index; a trusted validator counts ONCE
+   D3 |-> Blk("D3", "D3", 3, 31, "XD3", "XD3", "XD3", {"v3"}, {}, "R2", TRUE),
+   D4 |-> Blk("D4", "D4", 4, 41, "XD3", "XD3", "XD3", {"v3"}, {}, "R3", TRUE),
    W4 |-> Blk("W4", "W4", 4, 41, "X3", "X3", "X3", {"v3"}, {}, "R3", TRUE),
    N2 |-> Blk("N2", "N2", 2, 21, "A", "A", "A", {"v1", "v2"}, {}, "R1", TRUE),
    Q3 |-> Blk("Q3", "Q3", 3, 31, "X1", "X1", "X1", {"v1"}, {}, "R2", TRUE),
@@ -121,6 +130,8 @@ Persona(H, name) ==
     [] name = "lag3"      -> Tab(H, <<"R3">>, LAMBDA h : IF h > 3 THEN <<"TooHigh">> ELSE <<RName(h)>>)
     [] name = "lag3adv"   -> Tab(H, <<"R3", "R4">>, LAMBDA h : IF h = 4 THEN <<"TooHigh", "R4">> ELSE IF h > 4 THEN <<"TooHigh">> ELSE <<RName(h)>>)
     [] name = "lag23"     -> Tab(H, <<"R2", "R3">>, LAMBDA h : IF h > 3 THEN <<"TooHigh">> ELSE <<RName(h)>>)
+    [] name = "dup3"      -> Tab(H, <<RName(H)>>, LAMBDA h : IF h = 3 THEN <<"D3">> ELSE <<RName(h)>>)
+    [] name = "dup4"      -> Tab(H, <<IF H = 4 THEN "D4" ELSE RName(H)>>, LAMBDA h : IF h = 4 THEN <<"D4">> ELSE <<RName(h)>>)
     [] name = "lunatic3"  -> Tab(H, <<RName(H)>>, LAMBDA h : IF h = 3 THEN <<"L3">> ELSE <<RName(h)>>)
 
 =============================================================================
